@@ -127,7 +127,7 @@ def main():
     res["detected"] = any(v["rc"] == 1 for v in res["checks"].values())
     print(json.dumps(res, indent=1))
     if keep:
-        dst = "/verif/seeded/%s" % re.sub(r"^seed([2345])-(C\d+)-(\w+)$", r"\2-r\1-\3", tag).replace("seed-", "")
+        dst = "/verif/seeded/%s" % re.sub(r"^seed([23456])-(C\d+)-(\w+)$", r"\2-r\1-\3", tag).replace("seed-", "")
         os.makedirs(dst, exist_ok=True)
         shutil.copy(patch, dst)
         if demo:
